@@ -17,9 +17,9 @@ def main():
     args = sys.argv[1:]
     rnd = ""
     num = ""
-    if args and args[0] in ("--round2", "--round3", "--round4", "--round5", "--round6", "--round7", "--round8", "--round9"):
+    if args and args[0] in ("--round2", "--round3", "--round4", "--round5", "--round6", "--round7", "--round8", "--round9", "--round10"):
         num = args[0][-1]
-        rnd, args = {"2": "b", "3": "c", "4": "d", "5": "e", "6": "f", "7": "g", "8": "h", "9": "i"}[num], args[1:]
+        rnd, args = {"2": "b", "3": "c", "4": "d", "5": "e", "6": "f", "7": "g", "8": "h", "9": "i", "0": "j"}[num], args[1:]
     for pid in args:
         sid = pid + rnd
         src = f"/tmp/seed{num}_{pid}_out"
